@@ -8,7 +8,7 @@ package shmipc
 //      data in two steps (pending.add | state load + notify); closes are atomic events. When several branches of the
 //      select are ready Go chooses at random: the harness reports the branch taken to the model.
 //        read <min> <deadline 0/1> | r <tok|close|timer> | w <n> | pclose | lclose | sclose
-// (ii) wall-clock scenarios on real goroutines (no model):  t <deadline|data|flushfull|accept|sessionclose|peerclose>
+// (ii) wall-clock scenarios on real goroutines (no model):  t <deadline|data|flushfull|accept|sessionclose|peerclose|expired|tie>
 
 import (
 	"fmt"
@@ -385,6 +385,49 @@ func (c *c11Run) timed(kind string) string {
 		if r, ok := wait(ch, 5*time.Second, "read of 5 bytes after 6 bytes arrived"); ok && r.err != nil {
 			c.setFail("read-fails-with-data", fmt.Sprintf("read of 5 bytes returned %v although 6 bytes arrived", r.err))
 		}
+	case "expired":
+		// S (C11): a read whose deadline has already passed fails with a time-out at once (it must not wait for data)
+		st.SetReadDeadline(time.Now().Add(-time.Second))
+		ch := run(func() error { return st.readMore(1) })
+		if r, ok := wait(ch, 5*time.Second, "read with a deadline that has already passed"); ok {
+			if r.err != ErrTimeout {
+				c.setFail("deadline-wrong-result", fmt.Sprintf("read with an expired deadline and no data returned %v", r.err))
+			}
+			if r.d > 1500*time.Millisecond {
+				c.setFail("deadline-late", fmt.Sprintf("read with an expired deadline returned after %v", r.d))
+			}
+		}
+	case "tie":
+		// S (C11): ... with a time-out error, never early. A read is released by data at the very moment its timer fires;
+		// the NEXT read with a deadline must still wait for its own deadline.
+		st.SetReadDeadline(time.Now().Add(40 * time.Millisecond))
+		ch := run(func() error { return st.readMore(3) })
+		time.Sleep(15 * time.Millisecond) // the reader is parked in its select
+		st.pendingData.Lock()
+		sl := newBufferSlice(nil, []byte("abc"), 0, false)
+		sl.writeIndex = 3
+		st.pendingData.unread = append(st.pendingData.unread, bufferSliceWrapper{fallbackSlice: sl})
+		select {
+		case st.recvNotifyCh <- struct{}{}:
+		default:
+		}
+		time.Sleep(60 * time.Millisecond) // the reader woke up for the data and waits for this lock; meanwhile its timer fires
+		st.pendingData.Unlock()
+		if _, ok := wait(ch, 5*time.Second, "read released by data while its timer fires"); !ok {
+			break
+		}
+		st.recvBuf.recycle()
+		d := 400 * time.Millisecond
+		st.SetReadDeadline(time.Now().Add(d))
+		ch2 := run(func() error { return st.readMore(100) })
+		if r, ok := wait(ch2, 5*time.Second, "read with a 400 ms deadline"); ok {
+			if r.err != ErrTimeout {
+				c.setFail("deadline-wrong-result", fmt.Sprintf("read with a deadline and no data returned %v", r.err))
+			}
+			if r.d < d-2*time.Millisecond {
+				c.setFail("deadline-early", fmt.Sprintf("read with a 400 ms deadline timed out after %v: the previous read on this stream was released by data at the moment its own timer fired", r.d))
+			}
+		}
 	case "peerclose", "sessionclose":
 		// S (C11): a read returns when either end closes the stream or the session dies
 		st.SetReadDeadline(time.Time{})
@@ -429,7 +472,7 @@ func (c *c11Run) timed(kind string) string {
 
 func c11Gen(r *rand.Rand, tier string, idx int) []string {
 	if idx%50 == 49 {
-		return []string{"t " + []string{"deadline", "data", "peerclose", "sessionclose", "flushfull", "accept"}[r.Intn(6)]}
+		return []string{"t " + []string{"deadline", "data", "peerclose", "sessionclose", "flushfull", "accept", "expired", "tie"}[r.Intn(8)]}
 	}
 	var ops []string
 	n := 4 + r.Intn(30)
